@@ -3,8 +3,8 @@ default-scheme resolution, deprecated list / 'auto', per-category inheritance, a
 (configured values clipped to the scheme's hard limits).  Works on a structured configuration
 
   cfg = dict(schemes=[names], default=name|None, deprecated=[names]|'auto'|None,
-             opts={scheme: {min_rounds,max_rounds,default_rounds,vary_rounds}},
-             cats={cat: dict(default=..., deprecated=..., opts={scheme: {...}})})
+             opts={scheme: {min_rounds,max_rounds,default_rounds,vary_rounds}}, all={...same keys, wildcard scheme},
+             cats={cat: dict(default=..., deprecated=..., opts={scheme: {...}}, all={...})})
 
 and on hard limits passed in by the caller (declared metadata of the hashers), never on passlib code."""
 import re
@@ -28,7 +28,11 @@ def render(cfg, style=0):
     for s, o in cfg.get("opts", {}).items():
         for k, v in o.items():
             kw[f"{s}__{k}"] = str(v) if (style % 5 == 1 and not isinstance(v, float)) else v
+    for k, v in cfg.get("all", {}).items():
+        kw[f"all__{k}"] = v
     for cat, c in cfg.get("cats", {}).items():
+        for k, v in c.get("all", {}).items():
+            kw[f"{cat}__all__{k}"] = v
         if c.get("default"):
             kw[f"{cat}__context__default" if style % 2 else f"{cat}.context.default"] = c["default"]
         if c.get("deprecated") is not None:
@@ -71,7 +75,12 @@ def deprecated(cfg, scheme, cat=None):
 
 
 def scheme_opts(cfg, scheme, cat=None):
-    o = dict(cfg.get("opts", {}).get(scheme, {}))
+    """options in force for (scheme, category); later wins: all < category/all < scheme < category/scheme
+    (the wildcard scheme 'all' supplies values to every scheme that has the option)"""
+    o = dict(cfg.get("all", {}))
+    if cat:
+        o.update(cfg.get("cats", {}).get(cat, {}).get("all", {}))
+    o.update(cfg.get("opts", {}).get(scheme, {}))
     if cat:
         o.update(cfg.get("cats", {}).get(cat, {}).get("opts", {}).get(scheme, {}))
     return o
